@@ -41,6 +41,15 @@ def mk_rich_processor(ex, u):
     pix = st.alloc(HObj(u.cls("pyxel/data_structure/pixel.py::Pixel"), {"_array": arr("pixel_content"), "_shape": VTuple([VInt(10), VInt(12)]), "_numbytes": VInt(0)}))
     pers = st.alloc(HObj("builtins.object", {"_trapped_charge_array": arr("trapped")})) if False else st.alloc(HDict([(VStr("trapped_charge"), arr("trapped"))]))
     det.fields.update({"_pixel": pix, "_memory": pers})
+    # the detector already carries trapped charge from an earlier exposure (a real SimplePersistence object: two trap species)
+    spc, stc = u.cls("pyxel/data_structure/persistence.py::SimplePersistence"), u.cls("pyxel/data_structure/persistence.py::SimpleTrap")
+    a1 = lambda nm: st.alloc(HArr((z3.IntVal(2),), VDtype("float64"), lambda ix, nm=nm: VFloat(z3.Function(nm, z3.IntSort(), z3.RealSort())(z_int(ix[0])))))
+    a3 = st.alloc(HArr((z3.IntVal(2), z3.IntVal(10), z3.IntVal(12)), VDtype("float64"),
+                       lambda ix: VFloat(z3.Function("trapped_charge_3d", z3.IntSort(), z3.IntSort(), z3.IntSort(), z3.RealSort())(z_int(ix[0]), z_int(ix[1]), z_int(ix[2])))))
+    traps = [st.alloc(HObj(stc, {"time_constant": VFloat(z3.Real(f"trap{k}_tau")), "density": VFloat(z3.Real(f"trap{k}_density")), "charge": st.alloc(HArr((z3.IntVal(10), z3.IntVal(12)), VDtype("float64"),
+                       lambda ix, k=k: VFloat(z3.Function("trapped_charge_3d", z3.IntSort(), z3.IntSort(), z3.IntSort(), z3.RealSort())(z3.IntVal(k), z_int(ix[0]), z_int(ix[1])))))}))
+             for k in range(2)]      # class invariant after the setter: trap k holds plane k of the 3-D array
+    det.fields["_persistence"] = st.alloc(HObj(spc, {"_trap_list": st.alloc(HList(traps)), "_trapped_charge_array": a3, "_trap_time_constants": a1("trap_taus"), "_trap_densities": a1("trap_densities")}))
     # mutable argument VALUES (a list, a nested dictionary): a copy that shares them lets one run's model or a
     # nested parameter key write into another run's (or the caller's) configuration
     for i, m in enumerate(ex.scn["models"]):
@@ -66,6 +75,33 @@ def mk_rich_processor(ex, u):
             mf = ex.instantiate(mfc, [], {"func": VStr(f"pkg.mod.{g}_fn"), "name": VStr(f"{g}_model"), "arguments": dd, "enabled": VBool(z3.Bool(f"{g}_enabled"))}, Frame(None, mfc.module))
             pipe.fields["_" + g] = ex.instantiate(mgc, [], {"models": st.alloc(HList([mf])), "name": VStr(g)}, Frame(None, mgc.module))
     return proc
+
+
+def _same_elements(st, ca, cb) -> bool:
+    """element at a generic in-range index: syntactically equal, or equal in every model of the path condition (z3, 2 s)"""
+    ix = tuple(z3.Int(f"iso{i}") for i in range(len(ca.shape)))
+    ea, eb = ca.elem(ix), cb.elem(ix)
+    if str(ea) == str(eb):
+        return True
+    if not (hasattr(ea, "v") and hasattr(eb, "v")) or type(ea) is not type(eb):
+        return False
+    from pyvc.ops import to_real
+    try:
+        ta, tb = (to_real(ea), to_real(eb)) if isinstance(ea, (VFloat, VInt)) else (z_bool(ea.v), z_bool(eb.v))
+    except Exception:
+        return False
+    s = z3.Solver()
+    s.set("timeout", 2000)
+    s.add(*[c for c in st.pc if isinstance(c, z3.ExprRef)])
+    s.push()
+    s.add(z3.Or(*[z_int(d1) != z_int(d2) for d1, d2 in zip(ca.shape, cb.shape)]))
+    if s.check() != z3.unsat:
+        return False                      # the two shapes are not provably the same
+    s.pop()
+    for i, d1 in zip(ix, ca.shape):
+        s.add(i >= 0, i < z_int(d1))
+    s.add(ta != tb)
+    return s.check() == z3.unsat
 
 
 def iso(st, a, b, allow=lambda cls, key: False, seen=None, path="", diffs=None):
@@ -112,7 +148,7 @@ def iso(st, a, b, allow=lambda cls, key: False, seen=None, path="", diffs=None):
                 if not allow("dict", str(getattr(k1, "v", k1))):
                     iso(st, v1, v2, allow, seen, f"{path}[{getattr(k1, 'v', k1)}]", diffs)
         elif isinstance(ca, HArr):
-            if len(ca.shape) != len(cb.shape) or ca._elem is not cb._elem and str(ca.elem(tuple(z3.Int(f"iso{i}") for i in range(len(ca.shape))))) != str(cb.elem(tuple(z3.Int(f"iso{i}") for i in range(len(cb.shape))))):
+            if len(ca.shape) != len(cb.shape) or (ca._elem is not cb._elem and not _same_elements(st, ca, cb)):
                 diffs.append(f"{path}: array content differs")
         return diffs
     if type(a) is not type(b):
@@ -160,6 +196,9 @@ from pyxel.pipelines import DetectionPipeline, ModelFunction, Processor
 from pyxel.observation.misc import create_new_processor
 det = VP.detector(quantum_efficiency=0.5)
 det.pixel.array = np.full((3, 4), 7.0); det._memory['trapped'] = np.ones(3)
+from pyxel.data_structure import SimplePersistence
+det.persistence = SimplePersistence(trap_time_constants=[1.0, 10.0], trap_densities=[0.1, 0.2], geometry=(3, 4))
+det.persistence.trapped_charge_array = np.full((2, 3, 4), 4.0)        # trapped charge left by an earlier exposure
 args = {'level': 1, 'table': [1, 2, 3]}
 groups = ['scene_generation', 'phasing', 'charge_generation', 'charge_collection', 'charge_transfer', 'charge_measurement', 'signal_transfer', 'readout_electronics', 'data_processing']
 pipe = DetectionPipeline(photon_collection=[ModelFunction(func='verif_probes.probe', name='m', arguments=args)],
@@ -191,6 +230,14 @@ for make in (lambda: create_new_processor(processor=proc, parameter_dict={'detec
         VIOLATED, DETAIL = True, 'the copy made for a run does not carry the same pipeline: groups that differ: ' + repr(missing)
         break
     new.detector.pixel.array[0, 0] = -1.0; new.detector._memory['trapped'][0] = -1.0
+    if not np.array_equal(new.detector.persistence.trapped_charge_array, np.full((2, 3, 4), 4.0)):
+        VIOLATED, DETAIL = True, 'the copy does not carry the trapped charge of the detector'
+        break
+    new.detector.persistence.trapped_charge_array[...] = -3.0
+    for t in new.detector.persistence.trap_list: t.charge[...] = -3.0
+    if (det.persistence.trapped_charge_array != 4.0).any() or any((t.charge != 4.0).any() for t in det.persistence.trap_list):
+        VIOLATED, DETAIL = True, "writing trapped charge on the new processor's detector changed the trapped charge of the caller's detector (persistence memory shared)"
+        break
     new.pipeline.photon_collection.models[0].arguments['table'].append(99); new.pipeline.photon_collection.models[0].enabled = False
     new.detector.characteristics.quantum_efficiency = 0.9
     before = copy.deepcopy(layout(proc))
